@@ -12,6 +12,7 @@ INVARIANT ClipRefines
 INVARIANT Restriction
 INVARIANT QueryMonotone
 INVARIANT InsideIsComplete
+INVARIANT AlgebraLaws
 PROPERTY RcKeepsReading
 PROPERTY SliceOnlyLoses
 PROPERTY CopyKeepsMeaning
